@@ -38,6 +38,7 @@ pub fn def() -> CheckDef {
                 ("accepted_depth_3", 300 * m),
                 ("accepted_depth_4", 50 * m),
                 ("accepted_depth_5", 10 * m),
+                ("analysis_lists_with_a_taller_shallower_companion", 200 * m),
             ]
         },
         run,
@@ -215,6 +216,41 @@ fn run(rng: &mut Rng, _idx: u64, _tier: Tier) -> CaseOut {
             Ok(Err(_)) => {}
             Err(p) => {
                 out.violate(&libg::panic_signature(&p), format!("support test panicked: {p}"), detail("support test"));
+                return out;
+            }
+        }
+    }
+    // the analysis entry point sizes ONE graph for a whole list: it has to provide the names of the formula with the deepest
+    // quantifier nesting, wherever that formula stands and however tall / long the other (variable-free) formulae are
+    let (mut wp, mut wd) = (Vec::new(), Vec::new());
+    f.wild_labels(&mut wp, &mut wd);
+    let reparses = matches!(crate::syn::parse(&text, false), Ok(ref g) if *g == f);
+    if (1..=3).contains(&depth) && wp.is_empty() && wd.is_empty() && reparses && !names[0].starts_with(|c: char| c.is_ascii_digit()) && rng.chance(1, 8) {
+        use biodivine_hctl_model_checker::analysis::analyse_formulae;
+        use biodivine_hctl_model_checker::result_print::PrintOptions;
+        let lit = names[0].clone();
+        let mut tall = format!("({lit} | (~{lit}))");
+        for i in 0..(f.height() as usize + rng.range(1, 4)) {
+            tall = if i % 2 == 0 { format!("(AG {tall})") } else { format!("(~ {tall})") };
+        }
+        let shallow = format!("(!{{x}}: (AX {{x}}))");
+        let mut list = vec![text.clone()];
+        match rng.below(3) {
+            0 => list.push(tall.clone()),
+            1 => list.insert(0, tall.clone()),
+            _ => {
+                list.insert(0, shallow.clone());
+                list.push(tall.clone());
+            }
+        }
+        match libg::guarded(|| analyse_formulae(&bn, list.clone(), PrintOptions::NoPrint, None, None)) {
+            Ok(Ok(())) => out.count("analysis_lists_with_a_taller_shallower_companion"),
+            Ok(Err(e)) => {
+                out.violate("analysis rejects a list of well-formed closed formulae", format!("analyse_formulae({list:?}) = Err({e})"), detail(&e));
+                return out;
+            }
+            Err(p) => {
+                out.violate(&libg::panic_signature(&p), format!("analyse_formulae({list:?}) panicked: {p}"), detail("analysis of a list: graph does not support the deepest formula"));
                 return out;
             }
         }
